@@ -10,6 +10,7 @@ mod c10;
 mod c10_limits;
 mod c12;
 mod c14;
+mod c31;
 mod c32;
 mod c33;
 mod c17_sdl;
@@ -49,6 +50,7 @@ fn run_inner(case: &str, args: &Value) -> Option<Outcome> {
         "c33_subtype" => Some(c33::subtype(args)),
         "c14_pos" => Some(c14::pos(args)),
         "c12_upload" => Some(c12::upload(args)),
+        "c31_apq" => Some(c31::apq(args)),
         "c22_lookahead" => Some(c22::lookahead(args)),
         "c32_connection" => Some(c32::connection(args)),
         "c06_args" => Some(c06::args(args)),
@@ -81,6 +83,7 @@ pub fn search(case: &str, seed: u64, open: &[String]) -> Option<SearchResult> {
         "c33_subtype" => Box::new(c33::inputs(seed)),
         "c14_pos" => Box::new(c14::pos_inputs(seed)),
         "c12_upload" => Box::new(c12::upload_inputs(seed)),
+        "c31_apq" => Box::new(c31::inputs(seed)),
         "c22_lookahead" => Box::new(c22::inputs(seed)),
         "c32_connection" => Box::new(c32::inputs(seed)),
         "c06_args" => Box::new(c06::inputs(seed, open)),
